@@ -2218,3 +2218,20 @@ Qed.
 (* so nobody holds more than they were granted: in every such reachable state, held <= granted *)
 Corollary held_le_granted t l v : Led t l -> has_row t v = true -> held_t t v <= fst (lget l v).
 Proof. intros HL Hrow. specialize (HL v Hrow). unfold bal in HL. lia. Qed.
+
+Lemma run_side_env le : forall h t, run_side le t h -> run_env le t h.
+Proof.
+  induction h as [|[o sc] h IH]; intros t; cbn [run_side run_env]; [tauto|].
+  intros [H1 H2]. split; [|apply IH; exact H2].
+  destruct o; cbn [step_side step_env] in *; try tauto. destruct H1 as [S1 [S2 _]]. split; [|exact S2].
+  intros k Hk Hc. apply (S1 k Hk Hc).
+Qed.
+
+(* tower and monitor state after a history (for the examples) *)
+Fixpoint m_run (le : bool) (c : config) (t : tower) (m : mstate) (h : list (op * script)) : tower * mstate :=
+  match h with
+  | [] => (t, m)
+  | (o, sc) :: r =>
+      let '(t1, x) := step le t o sc in
+      if is_abort x then (t1, m) else m_run le c t1 (next_m c m t o sc x t1) r
+  end.
